@@ -252,7 +252,7 @@ pub fn run(args: &Args) -> i32 {
             }
         };
     }
-    let sizes: &[usize] = if args.thorough { &[3, 6, 8] } else { &[3, 6] };
+    let sizes: &[usize] = if args.thorough { &[3, 6, 9, 12] } else { &[3, 6, 8] };
     for &l in sizes {
         let cfg = ExploreCfg {
             time_cap: Duration::from_secs(if args.thorough { 1500 } else { 120 }),
